@@ -649,7 +649,7 @@ def fn_cases(ctx):
                 for og in itertools.product(*[range((d + c - 1) // c) for d, c in zip(dims, cl)]):
                     cases.append("C %d %d %s %s %s" % (nt, len(dims), " ".join(map(str, dims)), " ".join(map(str, cl)),
                                                      " ".join(map(str, og))))
-    for _ in range(500 if quick else 20000):
+    for _ in range(1500 if quick else 20000):
         nd = r.choice([1, 2, 2, 3, 3, 4, 5])
         dims = [r.randrange(1, 14) for _ in range(nd)]
         cl = [r.choice([1, d, r.randrange(1, d + 1), d + r.randrange(0, 3)]) for d in dims]
@@ -832,8 +832,8 @@ def run(ctx):
     stats = {}
     quick = ctx.tier == "quick"
     recs = load_corpus()
-    recs += sd_records(g, ctx.tier, 45 if quick else 700)
-    recs += gr_records(g, ctx.tier, 25 if quick else 300)
+    recs += sd_records(g, ctx.tier, 80 if quick else 700)
+    recs += gr_records(g, ctx.tier, 40 if quick else 300)
     recs += exhaustive_records(g, (3, 2, 2) if quick else (4, 4, 3))
     check_records(ctx, recs, "main", stats)
     ctx.corr("layouts~array-spec", **{k: v for k, v in stats.items()})
